@@ -17,6 +17,7 @@ EXPLANATION = (
     "C04.4 reuse before growth: inner_malloc's only call of sys_alloc comes after the dv / top / bin attempts (dominated by the failing edges of the `nb <= dvsize` and `nb < topsize` tests), and sys_alloc has no other caller; "
     "C04.5 segments are not forgotten: add_segment stores the previous segment record and links it; "
     "C04.6 nothing is dropped on the way to the free routine: every GlobalAlloc::dealloc reaches Dlmalloc::free with its argument on every path, and every remainder split off in try_realloc_chunk is handed to dispose_chunk on every path. "
+    "C04.7 the two comparisons reuse hinges on: tmalloc_large passes over a fitting tree chunk only under dvsize >= size, and release_unused_segments unmaps under chunk_top >= top. "
     "NOT decided: the bound itself (a quantitative statement about fragmentation over arbitrary histories) and VmSize behaviour.")
 ASSUMPTIONS = ["dlmalloc's bin/tree invariants (not established here)"]
 
@@ -96,6 +97,56 @@ def run_one(ck, prog):
             ck.ob("C04.6", f"split-remainder-always-disposed|{canon(a[0])}", bool(disp) and not lost, fn=trc["path"], site=c7.site(bb), path=c7.cfg.render_path(path) if path else None,
                   detail="the tail split off by a shrinking/extending realloc is marked in use but not handed to dispose_chunk on every path: it becomes an in-use chunk nobody owns (never freed, and it blocks coalescing of its neighbours)")
         ck.floor("C04.6", "remainders split in try_realloc_chunk", n_rem, 2)
+
+    # ---- C04.7 freed space is actually reused / returned: two comparisons everything hinges on -------------------------------------------
+    # (a) tmalloc_large passes over a fitting tree chunk (returns null so that malloc uses dv) only when dv can hold the request
+    tl = prog.fns.get(DL + "tmalloc_large")
+    if ck.anchor("C04.7", "tmalloc_large", tl):
+        c8 = prog.ctx(tl)
+        cfg8 = c8.cfg
+        nulls = [bb for bb, t in cfg8.calls(lambda t: (t.get("callee") or "").endswith("core::ptr::null_mut") and t["dst"]["l"] == 0)]
+        vtests = [bb for bb, t in cfg8.calls(lambda t: (t.get("callee") or "").endswith("::is_null")) if canon(c8.args(bb)[0]).endswith("var:v") and not cfg8.in_cycle(bb)]   # the final `v.is_null() || ..` (the loops test their cursor t)
+        dv_edges = set()
+        for sb in cfg8.live_blocks():
+            if cfg8.term(sb)["k"] != "switch":
+                continue
+            for e in cfg8.succ[sb]:
+                for f in c8.edge_facts(e):
+                    if f[0] == "cmp" and ((f[1] == "Ge" and mentions(f[2], c8.prov, lambda z: z[0] == "field" and z[2] == "dvsize") and canon(f[3]) == "p2") or
+                                          (f[1] == "Le" and mentions(f[3], c8.prov, lambda z: z[0] == "field" and z[2] == "dvsize") and canon(f[2]) == "p2")):
+                        dv_edges.add((e.src, e.dst))
+        ck.ob("C04.7", "tmalloc_large|anchor", bool(nulls) and bool(vtests), fn=tl["path"], detail=f"null returns {len(nulls)}, `v.is_null()` tests {len(vtests)}")
+        bad = []
+        for vt in vtests:
+            nxt = cfg8.term(vt).get("t")
+            for e in cfg8.succ.get(nxt, []) if nxt is not None else []:
+                fs = c8.edge_facts(e)
+                if any(f[0] == "truth" and f[2] is False and isinstance(f[1], tuple) and f[1][0] == "call" and f[1][3] == vt for f in fs):
+                    r8 = cfg8.reachable_from(e.dst, avoid={vt}, avoid_edges=dv_edges)
+                    bad += [nb for nb in nulls if nb in r8 and cfg8.dominates(vt, nb)]
+        ck.ob("C04.7", "tmalloc_large|fitting-chunk-passed-over-only-if-dv-holds-the-request", bool(dv_edges) and not bad, fn=tl["path"], site=c8.site(bad[0]) if bad else None,
+              detail="with a fitting tree chunk in hand tmalloc_large can return null without `dvsize >= size` having held: malloc then finds dv too small, carves from top or asks the OS, and the freed chunks in the tree bins are never reused (the heap grows with every large request)")
+    # (b) release_unused_segments may unmap a segment whose first chunk reaches EXACTLY the segment's top (>=, not >)
+    ru = prog.fns.get(DL + "release_unused_segments")
+    if ck.anchor("C04.7", "release_unused_segments", ru):
+        c9 = prog.ctx(ru)
+        frees = [bb for bb, t in c9.cfg.calls(lambda t: (t.get("callee") or "").endswith("dlmalloc::syscall_free"))]
+        ck.ob("C04.7", "release_unused_segments|anchor", len(frees) == 1, fn=ru["path"], detail=f"syscall_free sites: {len(frees)}")
+        for fb in frees:
+            ok = False
+            seen = []
+            for f in panics.dominating_facts(c9, fb):
+                if f[0] != "cmp" or f[1] not in ("Ge", "Gt", "Le", "Lt", "Eq"):
+                    continue
+                names = {y[2] for x in (f[2], f[3]) for y in walk_deep(x, c9.prov, limit=200) if y[0] == "call" and False}
+                a_top = mentions(f[2], c9.prov, lambda z: z[0] == "call" and (z[1] or "").endswith("Chunk::size")) and mentions(f[3], c9.prov, lambda z: z[0] == "call" and (z[1] or "").endswith("top_foot_size"))
+                b_top = mentions(f[3], c9.prov, lambda z: z[0] == "call" and (z[1] or "").endswith("Chunk::size")) and mentions(f[2], c9.prov, lambda z: z[0] == "call" and (z[1] or "").endswith("top_foot_size"))
+                if a_top or b_top:
+                    seen.append(f[1])
+                    if (a_top and f[1] == "Ge") or (b_top and f[1] == "Le"):
+                        ok = True
+            ck.ob("C04.7", "release_unused_segments|whole-segment-test-is->=", ok, fn=ru["path"], site=c9.site(fb),
+                  detail=f"a segment is unmapped when its first (free) chunk reaches the segment's top: chunk_top >= top. Found comparison(s) {seen}: with `>` a completely free segment (chunk_top == top, always the case) is never returned to the OS")
 
     fr = prog.fns.get(DL + "free")
     if fr is None:
